@@ -27,6 +27,7 @@ type Ops []struct {
 	NoInplace           bool
 	Reversed            string
 	Conversion          string
+	ConversionAlt       string
 	FailReturn          string
 }
 
@@ -43,7 +44,7 @@ var data = Data{
 		{Name: "abs", Title: "Abs", Operator: "abs", Unary: true},
 		{Name: "invert", Title: "Invert", Operator: "~", Unary: true},
 		{Name: "complex", Title: "MakeComplex", Operator: "complex", Unary: true, Conversion: "Complex"},
-		{Name: "int", Title: "MakeInt", Operator: "int", Unary: true, Conversion: "Int"},
+		{Name: "int", Title: "MakeInt", Operator: "int", Unary: true, Conversion: "Int", ConversionAlt: "*BigInt"},
 		{Name: "float", Title: "MakeFloat", Operator: "float", Unary: true, Conversion: "Float"},
 	},
 	BinaryOps: Ops{
@@ -113,7 +114,13 @@ func {{.Title}}(a Object) (Object, error) {
 			return nil, err
 		}
 		if res != NotImplemented {
-			return res, nil
+{{ if .Conversion }}			// the conversion has to give the type it converts to
+			switch res.(type) {
+			case {{.Conversion}}{{ if .ConversionAlt }}, {{.ConversionAlt}}{{ end }}:
+			default:
+				return nil, ExceptionNewf(TypeError, "__{{.Name}}__ returned non-{{.Name}} (type %s)", res.Type().Name)
+			}
+{{ end }}			return res, nil
 		}
 	}
 
